@@ -84,6 +84,16 @@ func c08side(c *Ctx) {
 			w1b := mon.New(log, "W1B", mon.ShapePlain)
 			l1 := newRoot("side1", f, w1, slog.AlwaysLevel)
 			l1.AddWriter(w1b) // a healthy destination BEHIND the failing one: it gets every record of that logger
+			if idx%8 == 0 || idx%8 == 4 {
+				// ... and behind that a log file that was closed under the logger (rotated away): every Write to it fails with
+				// os.ErrClosed, for every goroutine, all the time
+				if cf, err := os.CreateTemp("", "c08-closed-*.log"); err == nil {
+					_ = cf.Close()
+					_ = os.Remove(cf.Name())
+					l1.AddWriter(cf)
+					c.R.Add("side_cases_with_a_closed_file_in_the_destination_list", 1)
+				}
+			}
 			behind = true
 			l1.SetErrorWriter(we)
 			for g := 0; g < G; g++ {
